@@ -77,6 +77,9 @@ func (c SCase) Describe() string {
 
 var decisions = []string{"restart", "grestart", "stop", "gstop", "resume", "escalate"}
 
+// the supervisor's own decisions: the immediate ones twice as often (the mail clauses are about them)
+var supDecisions = []string{"restart", "resume", "restart", "resume", "grestart", "stop", "gstop", "escalate"}
+
 func genOps(t *rapid.T, n int, id *int, grandkid bool) []SOp {
 	targets := []string{"s/x", "s/x", "s/y", "s"}
 	if grandkid {
@@ -84,7 +87,7 @@ func genOps(t *rapid.T, n int, id *int, grandkid bool) []SOp {
 	}
 	var ops []SOp
 	for i := 0; i < n; i++ {
-		o := SOp{Kind: rapid.SampledFrom([]string{"kill", "kill", "fail", "tell", "tell"}).Draw(t, "kind")}
+		o := SOp{Kind: rapid.SampledFrom([]string{"fail", "kill", "fail", "tell", "kill", "tell"}).Draw(t, "kind")}
 		o.Target = rapid.SampledFrom(targets).Draw(t, "target")
 		switch o.Kind {
 		case "kill":
@@ -106,7 +109,7 @@ func genOps(t *rapid.T, n int, id *int, grandkid bool) []SOp {
 func genCase(t *rapid.T) SCase {
 	c := SCase{Strategy: rapid.SampledFrom([]string{"one", "all"}).Draw(t, "strategy")}
 	for i, n := 0, rapid.IntRange(1, 3).Draw(t, "nDec"); i < n; i++ {
-		c.Decisions = append(c.Decisions, rapid.SampledFrom(decisions).Draw(t, "decision"))
+		c.Decisions = append(c.Decisions, rapid.SampledFrom(supDecisions).Draw(t, "decision"))
 	}
 	for i, n := 0, rapid.IntRange(1, 2).Draw(t, "nSysDec"); i < n; i++ {
 		c.SysDec = append(c.SysDec, rapid.SampledFrom(decisions[:5]).Draw(t, "sysDecision"))
